@@ -304,8 +304,8 @@ func (a *Act) callByContract(res ssa.Value, instr ssa.Instruction, fn *ssa.Funct
 	}
 	// frame: the callee's modifies set must be allowed for the caller as well
 	if g.checkFrame && !ct.ModifiesNothing() {
-		for _, m := range cs.modRefs(cs.pre) {
-			a.frameOblige(instr, reach, m, "callee "+name+" (modifies)")
+		for _, m := range cs.modRanges(cs.pre) {
+			a.frameObligeR(instr, reach, m.ref, m.lo, m.hi, "callee "+name+" (modifies)")
 		}
 		if ct.ModifiesAll {
 			g.oblige("frame", a.srcDetail(instr), reach, "false", a.pos(instr.Pos()), "callee "+name+" may modify anything")
@@ -424,6 +424,28 @@ func (a *Act) invoke(res ssa.Value, instr ssa.Instruction, c *ssa.CallCommon, re
 		a.callByContract(res, instr, nil, ct, append([]string{recv}, args...), st, reach)
 		return
 	}
+	// the dynamic types the receiver can have are known statically (phi of freshly boxed values): dispatch over exactly those
+	if sts := staticIfaceTypes(c.Value, map[ssa.Value]bool{}); len(sts) > 0 && len(sts) <= 64 && a.depth < g.maxDepth {
+		var impls []impl
+		ok := true
+		for _, t := range sts {
+			sel := eng.prog.MethodSets.MethodSet(t).Lookup(c.Method.Pkg(), c.Method.Name())
+			if sel == nil {
+				ok = false
+				break
+			}
+			fn := eng.prog.MethodValue(sel)
+			if fn == nil {
+				ok = false
+				break
+			}
+			impls = append(impls, impl{t, fn})
+		}
+		if ok {
+			a.dispatch(res, instr, c, impls, recv, args, st, reach)
+			return
+		}
+	}
 	if (c.Method.Name() == "FromBytes" || c.Method.Name() == "Unmarshal") && strings.HasPrefix(shortName(it.String()), "dhcpv") {
 		// decoding methods called through an interface: default contract "modifies the object the receiver points to"
 		g.note("interface call %s uses the default decoder contract (modifies its receiver object only)", key)
@@ -449,6 +471,40 @@ func (a *Act) invoke(res ssa.Value, instr ssa.Instruction, c *ssa.CallCommon, re
 		return
 	}
 	a.havocCall(res, instr, st, reach, "invoke "+key, eng.isPureExtern(key))
+}
+
+// staticIfaceTypes: the concrete types of an interface value built only from MakeInterface instructions (through phis)
+func staticIfaceTypes(v ssa.Value, seen map[ssa.Value]bool) []types.Type {
+	if seen[v] {
+		return nil
+	}
+	seen[v] = true
+	switch x := v.(type) {
+	case *ssa.MakeInterface:
+		return []types.Type{x.X.Type()}
+	case *ssa.ChangeInterface:
+		return staticIfaceTypes(x.X, seen)
+	case *ssa.Phi:
+		var out []types.Type
+		have := map[string]bool{}
+		for _, e := range x.Edges {
+			if c, ok := e.(*ssa.Const); ok && c.Value == nil {
+				continue // nil edge: the nil-invoke obligation covers it
+			}
+			ts := staticIfaceTypes(e, seen)
+			if ts == nil {
+				return nil
+			}
+			for _, t := range ts {
+				if !have[t.String()] {
+					have[t.String()] = true
+					out = append(out, t)
+				}
+			}
+		}
+		return out
+	}
+	return nil
 }
 
 type impl struct {
@@ -624,7 +680,8 @@ func (a *Act) builtin(res ssa.Value, instr ssa.Instruction, c *ssa.CallCommon, f
 		if g.checkFrame {
 			cond := fmt.Sprintf("(or (<= %s 0) (>= (sref %s) %s))", n, dst, g.entry.Next)
 			if g.modset != nil {
-				cond = fmt.Sprintf("(or (<= %s 0) (>= (sref %s) %s) %s)", n, dst, g.entry.Next, g.modset(fmt.Sprintf("(sref %s)", dst)))
+				ns := slots(c.Args[0].Type().Underlying().(*types.Slice).Elem())
+				cond = fmt.Sprintf("(or (<= %s 0) (>= (sref %s) %s) %s)", n, dst, g.entry.Next, g.modsetR(fmt.Sprintf("(sref %s)", dst), fmt.Sprintf("(soff %s)", dst), fmt.Sprintf("(+ (soff %s) %s)", dst, mulConst(ns, n))))
 			}
 			g.oblige("frame", a.srcDetail(instr), reach, cond, a.pos(instr.Pos()), "copy writes only memory allocated during the call or listed in modifies")
 		}
@@ -712,7 +769,8 @@ func (a *Act) appendOp(res ssa.Value, instr ssa.Instruction, c *ssa.CallCommon, 
 	if g.checkFrame {
 		cond := fmt.Sprintf("(or (not %s) (<= %s 0) (>= (sref %s) %s))", inplace, tlen, s, g.entry.Next)
 		if g.modset != nil {
-			cond = fmt.Sprintf("(or (not %s) (<= %s 0) (>= (sref %s) %s) %s)", inplace, tlen, s, g.entry.Next, g.modset(fmt.Sprintf("(sref %s)", s)))
+			ns := slots(el)
+			cond = fmt.Sprintf("(or (not %s) (<= %s 0) (>= (sref %s) %s) %s)", inplace, tlen, s, g.entry.Next, g.modsetR(fmt.Sprintf("(sref %s)", s), fmt.Sprintf("(+ (soff %s) %s)", s, mulConst(ns, fmt.Sprintf("(sllen %s)", s))), fmt.Sprintf("(+ (soff %s) %s)", s, mulConst(ns, total))))
 		}
 		g.oblige("frame", a.srcDetail(instr), reach, cond, a.pos(instr.Pos()), "in-place append writes only memory allocated during the call or listed in modifies")
 	}
